@@ -93,6 +93,15 @@ _SUP = st.one_of(
                            'fields': st.one_of(st.none(), fields_strategy(), fields_strategy())}),
     st.fixed_dictionaries({'category': st.sampled_from(['correct', 'success']), 'label': st.just(True),
                            'fields': st.none()}),
+    # targeted: built from the attributes of the i-th created feedback object, so that it (nearly) always hits
+    st.fixed_dictionaries({'target': st.integers(0, 7),
+                           'form': st.sampled_from(['category', 'category+label', 'category+label+fields', 'label',
+                                                    'label+fields']),
+                           'swapcase': st.booleans(), 'spoil_field': st.booleans()}),
+    st.fixed_dictionaries({'target': st.integers(0, 7),
+                           'form': st.sampled_from(['category+label', 'category+label+fields', 'label',
+                                                    'label+fields']),
+                           'swapcase': st.booleans(), 'spoil_field': st.booleans()}),
 )
 
 
@@ -153,24 +162,71 @@ def build_feedback(spec):
     return getattr(C, ctor)(**kw)
 
 
-def replay_scenario(case, on_ctor_error=None):
-    """Clears MAIN_REPORT and replays the scenario.  Returns the number of specs whose constructor raised."""
+def concrete_suppression(s, created):
+    """Turn a targeted suppression into the (category, label, fields) actually passed to suppress()."""
+    if 'target' not in s:
+        return s
+    objs = [o for o in created if o is not None]
+    if not objs:
+        return None
+    fb = objs[s['target'] % len(objs)]
+    form = s['form']
+    cat = fb.category if 'category' in form else None
+    if 'category' in form and cat is None:
+        return None
+    label = True
+    if 'label' in form:
+        label = fb.label.swapcase() if s['swapcase'] else fb.label
+    if cat is not None and s['swapcase']:
+        cat = cat.swapcase()
+    fields = None
+    if 'fields' in form:
+        fields = {k: v for k, v in fb.fields.items() if k in FIELD_KEYS}
+        if s['spoil_field']:
+            fields['k'] = 'other'
+    return {'category': cat, 'label': label, 'fields': fields}
+
+
+def replay_scenario(case):
+    """Clears MAIN_REPORT and replays the scenario.
+    Returns (list of (spec index, exception) for constructors that raised, concrete suppression list)."""
     from pedal.core.report import MAIN_REPORT
     from pedal.core.commands import suppress
     MAIN_REPORT.full_clear()
     raised = []
+    concrete = []
     sups_at = {}
+    late = []
     for s, p in zip(case['sups'], case['sup_pos']):
-        sups_at.setdefault(min(p, len(case['specs'])), []).append(s)
+        if 'target' in s:
+            late.append(s)
+        else:
+            sups_at.setdefault(min(p, len(case['specs'])), []).append(s)
 
-    def do_sups(i):
-        for s in sups_at.get(i, []):
-            suppress(s['category'], s['label'], dict(s['fields']) if s['fields'] is not None else None)
+    def issue(s):
+        concrete.append(s)
+        suppress(s['category'], s['label'], dict(s['fields']) if s['fields'] is not None else None)
+
+    created = []
     for i, spec in enumerate(case['specs']):
-        do_sups(i)
+        for s in sups_at.get(i, []):
+            issue(s)
+        before = len(MAIN_REPORT.feedback) + len(MAIN_REPORT.ignored_feedback)
+        nf = len(MAIN_REPORT.feedback)
         try:
             build_feedback(spec)
         except Exception as e:
             raised.append((i, e))
-    do_sups(len(case['specs']))
-    return raised
+        if len(MAIN_REPORT.feedback) > nf:
+            created.append(MAIN_REPORT.feedback[-1])
+        elif len(MAIN_REPORT.feedback) + len(MAIN_REPORT.ignored_feedback) > before:
+            created.append(MAIN_REPORT.ignored_feedback[-1])
+        else:
+            created.append(None)
+    for s in sups_at.get(len(case['specs']), []):
+        issue(s)
+    for s in late:
+        c = concrete_suppression(s, created)
+        if c is not None:
+            issue(c)
+    return raised, concrete
